@@ -482,6 +482,36 @@ fn record_entry_to_source_with_scope(
     }
 }
 
+/// Does source text contain `via` / `into` / `where` outside brackets and string literals?
+fn has_bare_word_operator_text(source: &str) -> bool {
+    let mut depth = 0usize;
+    let mut in_string: Option<char> = None;
+    let mut word = String::new();
+    for c in source.chars().chain(std::iter::once(' ')) {
+        if let Some(quote) = in_string {
+            if c == quote {
+                in_string = None;
+            }
+            continue;
+        }
+        if c.is_ascii_alphanumeric() || c == '_' {
+            word.push(c);
+            continue;
+        }
+        if depth == 0 && matches!(word.as_str(), "via" | "into" | "where") {
+            return true;
+        }
+        word.clear();
+        match c {
+            '"' | '\'' => in_string = Some(c),
+            '(' | '[' | '{' => depth += 1,
+            ')' | ']' | '}' => depth = depth.saturating_sub(1),
+            _ => {}
+        }
+    }
+    false
+}
+
 /// Convert a SerializableValue to its source representation
 fn serializable_value_to_source(value: &SerializableValue) -> String {
     match value {
@@ -510,8 +540,15 @@ fn serializable_value_to_source(value: &SerializableValue) -> String {
         }
         SerializableValue::Lambda(lambda_def) => {
             let args_str: Vec<String> = lambda_def.args.iter().map(lambda_arg_to_source).collect();
+            // The body text is a complete expression; inside a lambda expression a bare
+            // `via` / `into` / `where` would end the body early
+            let body = if has_bare_word_operator_text(&lambda_def.body) {
+                format!("({})", lambda_def.body)
+            } else {
+                lambda_def.body.clone()
+            };
             // Wrap in parentheses so it can be used in call expressions
-            format!("(({}) => {})", args_str.join(", "), lambda_def.body)
+            format!("(({}) => {})", args_str.join(", "), body)
         }
         SerializableValue::BuiltIn(name) => name.clone(),
     }
